@@ -25,7 +25,7 @@ RULE = (
 )
 ASSUMPTIONS = ["12-octet layout per COSEM blue book 4.1.6.1 as emitted by vf/ref/cosem_enc.datetime12"]
 WATCHDOG_S = {"quick": 900, "thorough": 7200}
-N = {"quick": 800, "thorough": 30000}
+N = {"quick": 2000, "thorough": 30000}
 DEVIATIONS = [None] + list(range(-720, 721))
 
 
